@@ -95,6 +95,9 @@ impl<'a> Observer for NetObs<'a> {
 
 pub struct Transport;
 impl SubCheck for Transport {
+    fn fuzzable(&self) -> bool {
+        true
+    }
     type Case = SysDesc;
     fn name(&self) -> &'static str {
         "transport_along_all_paths"
@@ -147,6 +150,9 @@ pub struct NetCase {
 /// Networks built directly by the public constructors.
 pub struct Constructed;
 impl SubCheck for Constructed {
+    fn fuzzable(&self) -> bool {
+        true
+    }
     type Case = NetCase;
     fn name(&self) -> &'static str {
         "constructed_networks_api"
